@@ -106,11 +106,14 @@ type vfbConfig struct {
 	Corrupted   []int         // node positions without an honest handler (their shares belong to the adversary)
 	ManualNet   bool          // partials are queued and delivered by the case's scheduler
 	Seed        uint64
+	Universe    int // total number of nodes created (>= N); nodes N.. are not in the first group (future joiners)
 }
 
 type vfbNode struct {
-	pos      int // position in net.nodes == group index
+	pos      int // position in net.nodes (stable identity); == group index unless a reshare re-indexed it
 	net      *vfbNet
+	index    int        // index in the group its handler runs with (-1: not a member)
+	grp      *key.Group // group its handler is (to be) created with; nil = net.group
 	addr     string
 	pair     *key.Pair
 	share    *key.Share
@@ -242,18 +245,25 @@ func vfbNewNet(run *vfRun, cfg vfbConfig, start time.Time) (*vfbNet, error) {
 	for _, c := range cfg.Corrupted {
 		corrupted[c] = true
 	}
-	for i := 0; i < cfg.N; i++ {
+	total := cfg.N
+	if cfg.Universe > total {
+		total = cfg.Universe
+	}
+	for i := 0; i < total; i++ {
 		k := sch.KeyGroup.Scalar().Pick(random.New(rng))
 		pair := &key.Pair{Key: k, Public: &key.Identity{Key: sch.KeyGroup.Point().Mul(k, nil), Addr: vfbAddrOf(nt.id, i), Scheme: sch}}
 		if err := pair.SelfSign(); err != nil {
 			return nil, err
 		}
-		nodes[i] = &key.Node{Identity: pair.Public, Index: uint32(i)}
-		nd := &vfbNode{pos: i, net: nt, addr: pair.Public.Addr, pair: pair, honest: !corrupted[i],
-			share:  &key.Share{DistKeyShare: kdkg.DistKeyShare{Share: shares[i], Commits: commits}, Scheme: sch},
+		nd := &vfbNode{pos: i, index: -1, net: nt, addr: pair.Public.Addr, pair: pair, honest: !corrupted[i],
 			clk:    clock.NewFakeClockAt(start),
 			dir:    fmt.Sprintf("%s/n%d", tmp, i),
 			logger: vfbNewLogger(fmt.Sprintf("n%d", i))}
+		if i < cfg.N {
+			nodes[i] = &key.Node{Identity: pair.Public, Index: uint32(i)}
+			nd.index = i
+			nd.share = &key.Share{DistKeyShare: kdkg.DistKeyShare{Share: shares[i], Commits: commits}, Scheme: sch}
+		}
 		nt.nodes = append(nt.nodes, nd)
 		nt.byAddr[nd.addr] = nd
 		vfbHookMu.Lock()
@@ -343,7 +353,14 @@ func (nt *vfbNet) StartNode(n *vfbNode, mode string) error {
 			}
 		}
 	}
-	conf := &Config{Public: nt.group.Nodes[n.pos], Share: n.share, Group: nt.group, Clock: n.clk}
+	g := n.grp
+	if g == nil {
+		g = nt.group
+	}
+	if n.index < 0 || n.share == nil {
+		return errors.New("vfb: node is not a group member")
+	}
+	conf := &Config{Public: g.Node(uint32(n.index)), Share: n.share, Group: g, Clock: n.clk}
 	h, err := NewHandler(context.Background(), &vfbClient{net: nt, from: n}, n.tap, conf, n.logger, common.GetAppVersion())
 	if err != nil {
 		return err
@@ -361,7 +378,7 @@ func (nt *vfbNet) StartNode(n *vfbNode, mode string) error {
 
 func (nt *vfbNet) StartAll() error {
 	for _, n := range nt.nodes {
-		if !n.honest {
+		if !n.honest || n.index < 0 {
 			continue
 		}
 		if err := nt.StartNode(n, "start"); err != nil {
